@@ -105,6 +105,22 @@ def handle : List String → String
         | none => "err"
         | some p => "ok " ++ textHex p.title ++ " " ++ textHex p.author ++ " " ++ textHex p.description ++ " " ++
             showColors p.colors
+  | ["importext", e, h] => match text? e with
+    | none => "bad-op"
+    | some ext => match text? h with
+      | none => "err"
+      | some s => match importByExt ext s with
+        | none => "err"
+        | some p => "ok " ++ textHex p.title ++ " " ++ textHex p.author ++ " " ++ textHex p.description ++ " " ++
+            showColors p.colors
+  | ["tohex", c] => match rgb? c with
+    | some c => textHex (colorToHex c)
+    | none => "bad-op"
+  | ["fromhex", h] => match text? h with
+    | none => "bad-op"
+    | some s => match colorFromHex s with
+      | some c => hex6 c
+      | none => "err"
   | _ => "bad-op"
 
 end IcyVerif.Drv.Palette
